@@ -67,6 +67,9 @@ for prop, files in PINNED.items():
         for name, text in pinlib.item_texts(os.path.join(repo, f)).items():
             if any(text.count(a) != text.count(b) for a, b in ("{}", "()", "[]")) or text[-1] not in "};":
                 sys.exit(f"{f} :: {name}: item text is not a balanced item (pinlib splitting bug?): …{text[-60:]}")
+        if pat == pinlib.FILE:
+            pins[prop].setdefault(f, {}).update(pinlib.digests(os.path.join(repo, f), [pinlib.FILE]))
+            continue
         if isinstance(pat, list):
             names = [pinlib.slice_name(*sl) for sl in pat]
             sel = pinlib.digests(os.path.join(repo, f), names)
